@@ -348,6 +348,8 @@ pub fn case(t: &mut Tape, ctx: &CaseCtx) -> CaseResult {
             }
         })
         .collect();
+    // an id / updater name that cannot be an HTTP header value (drawn last: older tapes decode to none)
+    let unrepresentable = if t.chance(1, 12) { Some((t.flag(), *t.pick(&['\n', '\r', '\0', '\u{7f}', '\u{1}']))) } else { None };
     let case_json = json!({"updater": name, "updater_version": uver, "os": os, "service_url": url.text,
         "params": format!("{params:?}"), "apps": format!("{apps:?}"), "ops": format!("{ops:?}"), "ops_after_first_build": format!("{ops2:?}"), "ids": [set_request_id, set_session_id]});
     let bad = |sig: &str, msg: String| Err(Failure::new(sig, msg, case_json.clone()));
@@ -361,6 +363,41 @@ pub fn case(t: &mut Tape, ctx: &CaseCtx) -> CaseResult {
         service_url: url.text.clone(),
         omaha_public_keys: None,
     };
+    if let Some((in_name, ch)) = unrepresentable {
+        // Either no request is built at all, or the built request carries both headers: never a request without them
+        let mut cfg2 = config.clone();
+        let mut apps2 = apps.clone();
+        let first = ops.iter().map(|o| match o { Op::UpdateCheck(a) | Op::Ping(a) | Op::Event(a, _) => *a }).next();
+        if in_name {
+            cfg2.updater.name = format!("{}{ch}x", cfg2.updater.name);
+        } else if let Some(a) = first {
+            let old = apps2[a].id.clone();
+            for x in apps2.iter_mut().filter(|x| x.id == old) {
+                x.id = format!("{old}{ch}x");
+            }
+        }
+        let built2: Vec<App> = apps2.iter().map(build_app).collect();
+        let mut rb2 = RequestBuilder::new(&cfg2, &params);
+        for op in &ops {
+            rb2 = match op {
+                Op::UpdateCheck(a) => rb2.add_update_check(&built2[*a]),
+                Op::Ping(a) => rb2.add_ping(&built2[*a]),
+                Op::Event(a, e) => rb2.add_event(&built2[*a], build_event(e)),
+            };
+        }
+        let applied = in_name || first.is_some();
+        return match rb2.build(None::<&StandardCupv2Handler>) {
+            Err(_) => Ok(CaseReport { key: hash_of(&case_json.to_string()), classes: vec!["unrepresentable_header_value_no_request_built"], nontrivial: applied, ..Default::default() }),
+            Ok((req, _)) => {
+                let b = take(req);
+                let has = |n: &str| b.headers.iter().any(|(k, _)| k.eq_ignore_ascii_case(n));
+                if applied && !(has("x-goog-update-updater") && (first.is_none() || has("x-goog-update-appid"))) {
+                    return bad("built-without-required-header", format!("a request was built for {} containing {ch:?}, but it lacks the header that carries it: headers {:?}", if in_name { "an updater name" } else { "a first app id" }, b.headers.iter().map(|(k, _)| k.clone()).collect::<Vec<_>>()));
+                }
+                Ok(CaseReport { key: hash_of(&case_json.to_string()), classes: vec!["unrepresentable_header_value_built"], ..Default::default() })
+            }
+        };
+    }
     let built_apps: Vec<App> = apps.iter().map(build_app).collect();
     let mut rb = RequestBuilder::new(&config, &params);
     for op in &ops {
